@@ -10,8 +10,10 @@ VERIF = os.path.dirname(os.path.dirname(os.path.abspath(__file__)))
 SPEC = os.path.join(VERIF, "spec")
 RUN = os.path.join(VERIF, "run")
 REPLAYS = os.path.join(VERIF, "replays")
-EVID = os.path.join(VERIF, "evidence")
 REPO = os.environ.get("FLOWDYN_REPO", "/repo")
+# evidence describes /repo itself: a run against another tree (FLOWDYN_REPO = a scratch worktree carrying a seeded change or a
+# refactoring) writes its evidence under run/ instead, so that it can never replace a committed evidence file (it did once)
+EVID = os.path.join(VERIF, "evidence") if os.path.realpath(REPO) == "/repo" else os.path.join(RUN, "evidence_other_tree")
 TLA_CP = "/opt/veriftools/tla/tla2tools.jar:/opt/veriftools/tla/CommunityModules-deps.jar"
 
 TOL_ROUNDOFF = 2 ** 22      # ulps (of 2^-52 * scale)  ~ 1e-9 relative
